@@ -67,3 +67,26 @@ func VerifC12Updatable() {
 	verif.AssertNoWrites("pointer-cell-only-accessed-atomically", "atomic-mixed")
 	verif.Reach("end")
 }
+
+// VerifC12Race is the NATIVE confirmation harness for C12 counterexamples (it is never executed
+// symbolically): the inputs of a VerifC12Walk counterexample are rebuilt and the same walk is run from
+// several goroutines at once over the one shared Spec, each with its own copy of the state; the check
+// runs it under the race detector and treats a reported data race as the reproduction.
+func VerifC12Race() {
+	o, msgOpts := c06Opts()
+	b, st, msgs, ctl, props := c06Inputs(o, msgOpts)
+	done := make(chan bool)
+	const n = 8
+	for i := 0; i < n; i++ {
+		own := st.Copy()
+		go func() {
+			defer func() { recover(); done <- true }()
+			for j := 0; j < 20; j++ {
+				b.spec.Walk(context.Background(), own.Copy(), msgs, ctl, props)
+			}
+		}()
+	}
+	for i := 0; i < n; i++ {
+		<-done
+	}
+}
